@@ -138,7 +138,7 @@ Section Spec.
   (* 4.02 built by coap_dispatch(): echoes the offending options *)
   Definition sp_err402_direct : dp_ev :=
     EvTx true (dp_error (mkMsg ty code (m_mid req) (m_token req) (dp_fix_block2 cfg req) (m_payload req))
-                        130 (cs_flt (fst (dp_check_critical cfg req)))).
+                        130 (cs_flt (dp_check_critical cfg req))).
 
   Definition sp_emit (e : dp_err) : list (list dp_ev) :=
     match e with
